@@ -9,7 +9,7 @@ def run(prop, tier, seed, t0):
     exe = build.build_harness(*HARNESSES['h_c17/asan'])
     R = core.Runner(prop, tier, seed)
     res = core.Result()
-    npos = 60000 if thorough else 2500
+    npos = 120000 if thorough else 8000
     nneg = 150000 if thorough else 8000
     R.run_sharded(res, exe, ['side=0'], npos, label='h_c17/asan', variant='asan')
     R.run_sharded(res, exe, ['side=1'], nneg, label='h_c17/asan', variant='asan')
@@ -20,7 +20,7 @@ def run(prop, tier, seed, t0):
         'rule': 'positive: parses from an independent random LZ parser (explicit delimiters / none, minMatch 3..7, repcode-heavy / short / skipping styles, raw dictionary or prefix, maxBlockSize), parses extracted by ZSTD_generateSequences (+merge, same or separate context), registered producers (good / error / too many / zero) x fallback; each frame verified by library decoder and R. '
                 'negative: one structural corruption per list (offset beyond history/window at match start, matchLength < 3, missing/malformed delimiter, block lengths vs source, 32-bit length wrap) judged by an independent restatement of the documented rules, plus arbitrary arrays for memory safety; '
                 'distinct non-trivial = distinct (mode, minMatch, repcode mode, dict, style) positive cells + distinct (delimiter mode, corruption kind, outcome) negative cells',
-        'positive_cases': res.stat('positive_cases'), 'frames_verified_by_R': res.stat('frames_verified'), 'sequences_in_frames(R)': res.stat('frame_sequences'),
+        'positive_cases': res.stat('positive_cases'), 'formatted_unusual_dictionaries': res.stat('formatted_dictionaries'), 'formatted_dictionaries_refused_by_a_loader': res.stat('formatted_dictionaries_refused_by_a_loader'), 'frames_verified_by_R': res.stat('frames_verified'), 'sequences_in_frames(R)': res.stat('frame_sequences'),
         'parse_sequences': res.stat('parse_sequences'), 'parse_matches_crossing_128K': res.stat('parse_matches_crossing_128K'), 'parse_long_matches(>64K)': res.stat('parse_long_matches'),
         'parse_dict_reaching': res.stat('parse_dict_reaching'), 'explicit_blocks': res.stat('parse_explicit_blocks'), 'generateSequences_gave_up': res.stat('generateSequences_gave_up'),
         'producer_calls': res.stat('producer_calls'), 'producer_fallbacks': res.stat('producer_fallbacks'), 'producer_failures_reported': res.stat('producer_failures_reported'),
